@@ -149,7 +149,7 @@ fn run_case(line: &str, fails: &mut Vec<(String, String)>, effective: &mut Optio
         ["TL", ..] => traincli::run(&toks, fails),
         ["AC", ..] => ac::run(&toks, fails),
         [k, ..] if matches!(*k, "KY" | "KYE" | "KYX") => kytea::run(&toks, fails),
-        [k, ..] if matches!(*k, "RD" | "WJ" | "WP") => dict::run(&toks, fails),
+        [k, ..] if matches!(*k, "RD" | "WJ" | "WP" | "DF" | "LF") => dict::run(&toks, fails),
         [k, ..] if matches!(*k, "CP" | "CE" | "CPX") => clicase::run(&toks, fails),
         _ => "bad-case".into(),
     }
